@@ -1,6 +1,6 @@
 import Rtsp.Proofs.TimeDecRef
 import Rtsp.Proofs.Ntp
-import Rtsp.Proofs.SenderReportHist
+import Rtsp.Proofs.SenderReportFloat
 /-
 C15 — timestamps: 64-bit PTS continuation and NTP mapping.
 
@@ -110,6 +110,15 @@ theorem mulDiv_trunc (v m d : Int) (hd : d ≠ 0) : mulDiv v m d = (v * m).tdiv 
 /-- the result is off the exact quotient by less than one unit: `|v·m − d·result| < |d|` -/
 theorem mulDiv_error_lt_one (v m d : Int) (hd : d ≠ 0) :
     (v * m - d * mulDiv v m d).natAbs < d.natAbs := mulDiv_error_lt v m d hd
+
+/-- the Go comment's claim "avoid an int64 overflow": for `v ≥ 0`, `0 ≤ m < 2^31`, `0 < d < 2^31` (clock
+rates and 10^9) every intermediate value is bounded by the result or by 2^62, although `v·m` need not fit -/
+theorem mulDiv_no_overflow {v m d : Int} (hv : 0 ≤ v) (hm0 : 0 ≤ m) (hm : m < 2147483648)
+    (hd0 : 0 < d) (hd : d < 2147483648) :
+    0 ≤ v.tdiv d * m ∧ v.tdiv d * m ≤ mulDiv v m d ∧
+    0 ≤ v.tmod d * m ∧ v.tmod d * m < 4611686018427387904 ∧
+    0 ≤ (v.tmod d * m).tdiv d ∧ (v.tmod d * m).tdiv d < 2147483648 :=
+  mulDiv_intermediates_fit hv hm0 hm hd0 hd
 
 /-! ## a track that starts later is placed on the leading track's timeline
 
@@ -290,5 +299,62 @@ theorem packet_ntp_history (rate : Int) (ps : List SR.Pkt) (p : SR.Pkt) (srs : L
 
 example : SR.lastEq [⟨4294967290, 1700000000000000000, true, 5000000000, 7, 100⟩, ⟨3000, 5, false, 6, 7, 8⟩]
     = some ⟨4294967290, 1700000000000000000, true, 5000000000, 7, 100⟩ := by decide
+
+/-! ### the float product, proved for the binary64 model
+
+`F64` (Model/SenderReport.lean) is an exact model of IEEE-754 binary64 round-to-nearest-even on
+non-negative rationals; the harness compares it bit for bit with the real `float64` computation on every
+generated report.  For the model the hypothesis of `packet_ntp_within_tick` is a theorem. -/
+
+/-- every `F64` rounding has relative error at most 2^-53 -/
+theorem float_rounding_relative_error (p q : Nat) (hq : 0 < q) :
+    0 < (F64.roundQ p q).den ∧
+    9007199254740992 * ((F64.roundQ p q).num * q) ≤ (9007199254740992 + 1) * (p * (F64.roundQ p q).den) ∧
+    (9007199254740992 - 1) * (p * (F64.roundQ p q).den) ≤ 9007199254740992 * ((F64.roundQ p q).num * q) :=
+  let h := F64.roundQ_near p q hq
+  ⟨h.den_pos, h.upper, h.lower⟩
+
+/-- `int64(d.Seconds()*float64(rate))` is `⌊d·rate/10^9⌋` up to a float error worth less than 1 ns of
+time, for elapsed times up to 2^51 ns (26 days) -/
+theorem float_ticks_bounds (d rate : Nat) (hd : d ≤ 2251799813685248) (hr : rate < 9007199254740992) :
+    F64.ticks d rate * 1000000000 ≤ d * rate + rate ∧
+    d * rate < (F64.ticks d rate + 1) * 1000000000 + rate :=
+  F64.ticks_bounds d rate hd hr
+
+example : F64.ticks 2311625000 48000 = 110957 ∧ 2311625000 * 48000 = 110958 * 1000000000 := by decide
+
+/-- the hypothesis of `packet_ntp_within_tick` holds for the modelled float product -/
+theorem sender_float_product_within_tick (d rate : Int) (hd0 : 0 ≤ d) (hd : d ≤ 2251799813685248)
+    (hr0 : 0 < rate) (hr : rate ≤ 1000000000) :
+    -1000000000 ≤ d * rate - (SR.floatTicks d rate : Nat) * 1000000000 ∧
+    d * rate - (SR.floatTicks d rate : Nat) * 1000000000 ≤ 1000000000 + rate :=
+  SR.floatTicks_hypothesis d rate hd0 hd hr0 hr
+
+/-- **PacketNTP within one tick + 2 ns of the writer's time, for the report `Sender.report` computes**
+(no hypothesis on the float product): clock rate `0 < rate ≤ 10^9`, at most 2^51 ns (26 days) between the
+sender's last packet and the report, instants in NTP era 0, queried timestamp `k` ticks from the last
+packet with `x − (2^31 − 1) ≤ k ≤ x + 2^31 − 3`, `x = ⌊d·rate/10^9⌋` the report's own position. -/
+theorem packet_ntp_within_tick_report (s : SR.Sender) (r : SR.Recv) (now : Int) (ts : UInt32) (k : Int)
+    (hrate : r.rate = s.rate) (hR : 0 < s.rate) (hR1 : s.rate ≤ 1000000000)
+    (hd0 : 0 ≤ now - s.lastSystem) (hd : now - s.lastSystem ≤ 2251799813685248)
+    (hTlo : -2208988800000000000 ≤ s.lastNTP + (now - s.lastSystem))
+    (hThi : s.lastNTP + (now - s.lastSystem) < 2085978496000000000)
+    (hts : (ts.toNat : Int) = ((s.lastRTP.toNat : Int) + k) % 4294967296)
+    (hlo : ((now - s.lastSystem) * s.rate) / 1000000000 + 1 - 2147483648 ≤ k)
+    (hhi : k < 2147483648 + ((now - s.lastSystem) * s.rate) / 1000000000 - 2) :
+    ∃ P : Int,
+      (r.processSR (s.report now).ntp (s.report now).rtp).packetNTP ts = some P ∧
+      -(1000000000 + 2 * s.rate) < s.rate * (P - s.lastNTP) - k * 1000000000 ∧
+      s.rate * (P - s.lastNTP) - k * 1000000000 < 1000000000 + 2 * s.rate :=
+  SR.packet_ntp_within_tick_report s r now ts k hrate hR hR1 hd0 hd hTlo hThi hts hlo hhi
+
+example :
+    let s := sampleSender
+    (0 : Int) < s.rate ∧ s.rate ≤ 1000000000 ∧ 0 ≤ 6000000000 - s.lastSystem ∧
+    6000000000 - s.lastSystem ≤ 2251799813685248 ∧
+    ((6000000000 - s.lastSystem) * s.rate) / 1000000000 + 1 - 2147483648 ≤ 10 ∧
+    (10 : Int) < 2147483648 + ((6000000000 - s.lastSystem) * s.rate) / 1000000000 - 2 ∧
+    ((SR.Recv.init 90000).processSR (s.report 6000000000).ntp (s.report 6000000000).rtp).packetNTP 4
+      = some 1700000000000111112 := by decide
 
 end Rtsp.C15
